@@ -33,6 +33,7 @@ import (
 	"unsafe"
 
 	. "github.com/Comcast/rulio/core"
+	"github.com/Comcast/rulio/core/verifhook"
 	"github.com/Comcast/rulio/cron"
 	"github.com/Comcast/rulio/storage/bolt"
 	"github.com/Comcast/rulio/storage/cassandra"
@@ -155,6 +156,7 @@ func (cls *CachedLocations) Open(ctx *Context, sys *System, name string, check b
 		// can take a long time.  We'd like to be able to open
 		// locations concurrently.
 		cls.Unlock()
+		verifhook.Point("sys.open.gap")
 		return cl.Get(ctx, sys, name, check)
 	}
 
@@ -709,6 +711,7 @@ func (sys *System) ensureStorage(ctx *Context) (Storage, error) {
 		Log(ERROR, ctx, "System.ensureStorage", "error", err)
 		return nil, err
 	}
+	verifhook.Point("sys.storage.gap")
 	sys.storage = storage
 	return storage, nil
 }
